@@ -131,7 +131,7 @@ class Engine(CoreMixin, ExprMixin, StmtMixin, CallMixin, BuiltinMixin):
             return Py('namedtype', NAMED[name])
         if name in self.spec.specfuncs:
             return Py('specfunc', name)
-        if name in SPEC_BUILTINS:
+        if name in SPEC_BUILTINS or name in self.spec.specbuiltins:
             return Py('specbuiltin', name)
         if name in self.spec.schemas or name in ('Exception',):
             return None
@@ -164,6 +164,17 @@ class Engine(CoreMixin, ExprMixin, StmtMixin, CallMixin, BuiltinMixin):
         if name == 'ite':
             c = self.ev_bool(node.args[0])
             a, b = self.ev(node.args[1]), self.ev(node.args[2])
+            if a.t != b.t:
+                if isinstance(a.t, TOpt):
+                    b = opt_wrap(b, a.t)
+                elif isinstance(b.t, TOpt):
+                    a = opt_wrap(a, b.t)
+                elif a.t is TNone:
+                    a = opt_wrap(a, TOpt(b.t))
+                    b = opt_wrap(b, a.t)
+                elif b.t is TNone:
+                    b = opt_wrap(b, TOpt(a.t))
+                    a = opt_wrap(a, b.t)
             return ite(c, a, b)
         if name in ('forall', 'exists'):
             # forall(x, lo, hi, body)  or  forall(x, 'Type', body)
@@ -199,6 +210,9 @@ class Engine(CoreMixin, ExprMixin, StmtMixin, CallMixin, BuiltinMixin):
                 return self.ev(body)
             finally:
                 self.frame.locals = saved
+        if name in self.spec.specbuiltins:
+            args = [self.ev(a) for a in node.args]
+            return self.spec.specbuiltins[name](self, *args)
         if name in SPEC_BUILTINS:
             args = [self.ev(a) for a in node.args]
             return SPEC_BUILTINS[name](self, *args)
@@ -388,12 +402,16 @@ class Engine(CoreMixin, ExprMixin, StmtMixin, CallMixin, BuiltinMixin):
                 ts = 'Ref[%s]' % sc.name
             if ts is None:
                 raise BindError('contract %s gives no type for parameter %s' % (fs.key, n))
-            out[n] = parse_type(ts)
+            if ts == 'AnyPkt' or ts.startswith('Ext['):
+                out[n] = ts
+            else:
+                out[n] = parse_type(ts)
         return out
 
     # ---------------------------------------------------------------- verify
     def verify(self, fs, case_idx=0):
         case = fs.cases[case_idx]
+        self.cur_case = case
         cname = case.get('name')
         self.unit_id = fs.key + ('[%s]' % cname if cname else '')
         res = UnitResult(self.unit_id, fs.key)
@@ -449,6 +467,11 @@ class Engine(CoreMixin, ExprMixin, StmtMixin, CallMixin, BuiltinMixin):
         ptypes = self.param_types(fs, fdef, case)
         watch = []
         for n, t in ptypes.items():
+            if isinstance(t, str):
+                if t.startswith('Ext['):
+                    fr.locals[n] = Py('ext', t[4:-1])
+                    continue
+                raise BindError('parameter %s of %s needs a concrete packet type in each case' % (n, fs.key))
             if n == 'self':
                 v = V(t, z3.Int('self'))
             else:
@@ -467,7 +490,7 @@ class Engine(CoreMixin, ExprMixin, StmtMixin, CallMixin, BuiltinMixin):
             self.assume(truthy(self.spec_eval(c.node)))
         for src in case.get('requires', []):
             self.assume(truthy(self.spec_eval(ast.parse(src.strip(), mode='eval').body)))
-        inv_schema = fs.inv_schema or (self.spec.schema_of_type(ptypes['self']) if 'self' in ptypes else None)
+        inv_schema = fs.inv_schema or (self.spec.schema_of_type(ptypes['self']) if 'self' in ptypes and not isinstance(ptypes['self'], str) else None)
         invs = self.spec.all_invariants(inv_schema) if (fs.handler and inv_schema) else []
         for c in invs:
             self.assume(truthy(self.spec_eval(c.node)))
@@ -522,7 +545,8 @@ class Engine(CoreMixin, ExprMixin, StmtMixin, CallMixin, BuiltinMixin):
     def check_normal(self, fs, rv, invs):
         fr = self.frame
         self.cover(self.unit_id + '/normal_exit')
-        rt = parse_type(fs.returns) if fs.returns else None
+        rts = self.cur_case.get('returns', fs.returns) if self.cur_case else fs.returns
+        rt = parse_type(rts) if rts else None
         if rt is not None:
             try:
                 fr.locals['result'] = coerce(rv, rt)
@@ -696,12 +720,25 @@ def _sb_alloc_before(eng, r):
     return mk_bool(z3.And(r.z > 0, r.z < eng.old.alloc0 + eng.old.alloc_k))
 
 
+def _sb_dict_put(eng, d, k, v):
+    t = d.t
+    kk = coerce(k, t.k)
+    vv = coerce(v, t.v)
+    return V(t, t.mk(z3.Store(t.dom(d.z), kk.z, True), z3.Store(t.map(d.z), kk.z, vv.z)))
+
+
+def _sb_dict_del(eng, d, k):
+    t = d.t
+    kk = coerce(k, t.k)
+    return V(t, t.mk(z3.Store(t.dom(d.z), kk.z, False), t.map(d.z)))
+
+
 def _sb_cbtag(eng, name):
     from .sym import func_tag
     return mk_int(func_tag(name.py[1]))
 
 
-SPEC_BUILTINS = {'cbtag': _sb_cbtag, 'length': _sb_length, 'slice': _sb_slice, 'is_none': _sb_is_none, 'unwrap': _sb_unwrap,
+SPEC_BUILTINS = {'cbtag': _sb_cbtag, 'dict_put': _sb_dict_put, 'dict_del': _sb_dict_del,'length': _sb_length, 'slice': _sb_slice, 'is_none': _sb_is_none, 'unwrap': _sb_unwrap,
                  'some': _sb_some, 'dom': _sb_dom, 'lookup': _sb_lookup, 'set_add': _sb_set_add,
                  'set_remove': _sb_set_remove, 'is_empty_set': _sb_empty_set, 'last': _sb_last, 'at': _sb_at,
                  'str_of': _sb_str_of, 'flag': _sb_flag, 'band': _sb_band, 'eqv': _sb_eqv, 'no_dup': _sb_no_dup,
